@@ -814,10 +814,11 @@ func (in *Inst) havocItem(mi ModItem, env *SpecEnv, oldSt, st *State) {
 			pre.st = oldSt
 			for _, bx := range mi.But {
 				s := pre.eval(bx)
-				if s.K != KSlc {
-					e.fail("modifies %s: %s is not a slice", mi.Src, exprString(bx))
+				a := s.T // an array id (ghost int or arr(x)) ...
+				if s.K == KSlc {
+					a = slcArr(s.T) // ... or the array of a slice
 				}
-				e.assume(st.reach, sEq(sSel(nm, slcArr(s.T)), sSel(m, slcArr(s.T))))
+				e.assume(st.reach, sEq(sSel(nm, a), sSel(m, a)))
 			}
 		}
 		st.set("Mem", nm)
